@@ -133,15 +133,11 @@ theorem stmtSetplugstate_ext (d a o e l p s i) (r : List RxCall) (h : NoMis (stm
   unfold stmtSetplugstate' at h ⊢
   split
   · rfl
-  · rename_i hx
-    simp only [hx] at h
-    split
-    · rfl
-    · rename_i s0 plug hs
-      simp only [hs] at h
-      dsimp only at h ⊢
-      rw [pickState_ext _ _ _ _ r h]
-      rfl
+  · rename_i s0 plug hs
+    simp only [hs] at h
+    dsimp only at h ⊢
+    rw [pickState_ext _ _ _ _ r h]
+    rfl
 
 theorem stmtSetresult_ext (d a o p s i) (r : List RxCall) (h : NoMis (stmtSetresult d a o p s i).out) :
     stmtSetresult d a (ext o r) p s i = (stmtSetresult d a o p s i).ext r := by
@@ -150,15 +146,11 @@ theorem stmtSetresult_ext (d a o p s i) (r : List RxCall) (h : NoMis (stmtSetres
   unfold stmtSetresult' at h ⊢
   split
   · rfl
-  · rename_i hx
-    simp only [hx] at h
-    split
-    · rfl
-    · rename_i s0 plug hs
-      simp only [hs] at h
-      dsimp only at h ⊢
-      rw [pickResult_ext _ _ _ _ r h.left]
-      rfl
+  · rename_i s0 plug hs
+    simp only [hs] at h
+    dsimp only at h ⊢
+    rw [pickResult_ext _ _ _ _ r h.left]
+    rfl
 
 theorem processStmt_ext (d : Dev) (a : Action) (o : Oracle) (now : Time) (r : List RxCall) (h : NoMis (processStmt d a o now).out) :
     processStmt d a (ext o r) now = (processStmt d a o now).ext r := by
